@@ -359,6 +359,19 @@ func (p *prov) val0(v ssa.Value) labelSet {
 	return p.unknown(v, "unsupported value kind")
 }
 
+// reachLabels: memory reached through an object that is package-level or
+// shared through a segment is itself package-level / shared (the field-based
+// abstraction forgets the base object, so its sharing labels are re-attached).
+func (p *prov) reachLabels(base ssa.Value) labelSet {
+	out := labelSet{}
+	for k, w := range p.val(base) {
+		if strings.HasPrefix(k, "Global:") || k == "SharedSegment" {
+			out[k] = w
+		}
+	}
+	return out
+}
+
 // load: *addr
 func (p *prov) load(x *ssa.UnOp) labelSet {
 	out := labelSet{}
@@ -378,7 +391,9 @@ func (p *prov) load(x *ssa.UnOp) labelSet {
 		if owner == nil {
 			return p.unknown(x, "field of unnamed struct")
 		}
-		return p.fieldLoad(fieldKey{owner.Obj(), f.Name()}, x)
+		out.addAll(p.fieldLoad(fieldKey{owner.Obj(), f.Name()}, x))
+		out.addAll(p.reachLabels(a.X))
+		return out
 	case *ssa.IndexAddr:
 		return p.elem(a.X)
 	case *ssa.Global:
@@ -644,6 +659,7 @@ func (p *prov) elem0(v ssa.Value) labelSet {
 				return p.unknown(v, "elements of field of unnamed struct")
 			}
 			k := fieldKey{owner.Obj(), f.Name()}
+			out.addAll(p.reachLabels(a.X))
 			out.addAll(p.memo("fe|"+k.owner.Name()+"."+k.field, func() labelSet {
 				if p.h.field != nil {
 					if l, ok := p.h.field(k); ok {
